@@ -109,6 +109,9 @@ def check(ctx, world):
     include(ctx, world, "c15", "C15", keep=lambda o: not o.rule.endswith("-width") or o.rule in ("K1-width", "K4-width"))
     include(ctx, world, "c18", "C18", keep=lambda o: not o.rule.startswith("D-") and o.rule != "N-ctor-assert")
     include(ctx, world, "c08", "C08", keep=lambda o: o.rule in ("Z4", "Z3-total"))
+    # "for restored instances": a restored instance computes the published key for the session its state describes only if
+    # the reader takes every field from the value stored under its own key, whatever the order of the stored object's members
+    include(ctx, world, "c10", "C10", keep=lambda o: o.rule in ("R-order", "R-order-field"))
     # the element operations the protocol uses compute the group operation and handle the identity
     # (otherwise encode(x*(In - w*N)) is not the published K for the inputs that reach those cases)
     include(ctx, world, "c13", "C13", keep=lambda o: o.rule in ("G1-add", "G1-scalarmult", "G1-zero", "G3-sum", "G3-modL", "G3-identity", "G6", "G7", "G7-repr")
